@@ -209,9 +209,17 @@ impl Monitor for C12 {
                     st.highest = st.highest.max(end);
                     if let Some(rpn) = st.reset_pn {
                         if p.pn > rpn {
+                            // the bare "stream opened" notification (offset 0, no data, no
+                            // FIN) is told apart from frames carrying data or a FIN
+                            let sig = if data.is_empty() && *offset == 0 && !*fin {
+                                cx.summary.count("c12.open_notify_after_reset", 1);
+                                "stream-after-reset:empty-open-notify"
+                            } else {
+                                "stream-after-reset"
+                            };
                             cx.violate(
                                 "C12",
-                                "stream-after-reset",
+                                sig,
                                 format!("ep{} c{} stream {id}: STREAM frame in packet {} after RESET_STREAM in packet {rpn}", p.ep, p.conn, p.pn),
                                 json!({"ep": p.ep, "conn": p.conn, "stream": id, "pn": p.pn, "reset_pn": rpn}),
                             );
